@@ -930,7 +930,7 @@ def _register_bounded2():
                         doc="BOUNDED stand-in: band-energy derivative relation at orthonormal coefficients (fixed Hamiltonian)"))
 
 
-def nat_grad_coarse_even_grid(xc, s=(6, 6, 8), pot="gth", unrestricted=None, kmesh=None):
+def nat_grad_coarse_even_grid(xc, s=(6, 6, 8), pot="gth", unrestricted=None, kmesh=None, setk=None):
     def f(rng):
         """The derivative relation for a functional family / external potential / sampling; s = (6, 6, 8) is a user-chosen COARSE EVEN
         sampling (smaller than the default one): products of orbitals reach the Nyquist planes of the FFT box."""
@@ -946,6 +946,8 @@ def nat_grad_coarse_even_grid(xc, s=(6, 6, 8), pot="gth", unrestricted=None, kme
         at.s = list(s)
         if kmesh:
             at.kpts.kmesh = list(kmesh)
+        if setk:
+            at.set_k(*setk)
         scf = SCF(at, xc=xc, pot=pot, verbose="critical")
         at = scf.atoms
         W = [np.asarray(w) for w in guess_random(scf)]
@@ -985,6 +987,13 @@ def _register_families():
              ("lda_harmonic_pol", "lda,chachiyo", "harmonic", True, None),
              ("pbesol_lr", "pbesol", "lr", False, None),
              ("lda_ge_2k", "lda,vwn", "ge", False, (1, 2, 1)))
+    wk2 = ([[0.0, 0.0, 0.0], [0.2, 0.1, 0.05]], [0.3, 0.7])
+    register(Obligation(name="C01.total_energy.slope_eq_2Re_grad_D.family.mgga_tpss_weighted_k", prop="C01", engine="B", bounded=True,
+                        functions=["eminus.dft:get_grad", "eminus.gga:get_tau", "eminus.gga:calc_Vtau", "eminus.energies:get_E"],
+                        run=BoundedNative(nat_grad_coarse_even_grid(":MGGA_X_TPSS,:MGGA_C_TPSS", s=(11, 11, 14), unrestricted=True, setk=wk2), 1, tol=1e-6,
+                                          what="slope of the total energy vs 2 Re<grad, D>: TPSS, unrestricted, two k-points with weights (0.3, 0.7)"),
+                        budget={"quick": 300, "thorough": 600}, doc="BOUNDED: derivative relation for a meta-GGA with unequal k-point weights (tau and its potential carry the same weights); default sampling (11, 11, 14): "
+                            "on a coarser one aliasing gives grid points with tau < |grad n|^2 / (8 n) where Libxc clamps its inputs (1e-5 at (7, 7, 9) with unequal weights)"))
     for tag, xc, pot, unres, km in cases:
         # SCAN on the DEFAULT sampling (11, 11, 14): on a coarser one aliasing gives grid points with tau < |grad n|^2 / (8 n), where Libxc
         # clamps sigma to 8 n tau inside the functional (its derivatives are then not those of the clamped function: 2e-2 at (7, 7, 9),
